@@ -114,7 +114,18 @@ def main(argv=None) -> int:
         return worst
     if opts.cmd == 'selftest':
         from .variants import run_selftest
-        return run_selftest(opts.properties or None, opts.repo, jobs=opts.jobs, verbose=opts.verbose)
+        rc = run_selftest(opts.properties or None, opts.repo, jobs=opts.jobs, verbose=opts.verbose)
+        if not opts.properties:
+            # the whole self-test also checks the analyser's normal forms: every rewrite of inline.py is run, in original and
+            # in normalised text, on a corpus of synthetic functions (tools/normal_form_equivalence.py; emsarray is not executed)
+            import subprocess
+            tool = os.path.join(os.path.dirname(os.path.dirname(os.path.abspath(__file__))), 'tools', 'normal_form_equivalence.py')
+            r = subprocess.run([sys.executable, tool], capture_output=True, text=True)
+            print(r.stdout.rstrip())
+            if r.returncode != 0:
+                print(r.stderr[-2000:])
+                rc = rc or 1
+        return rc
     if opts.cmd == 'setup':
         # nothing to build: smoke test the parser host and the engine on the tree
         program = Program(os.environ.get('EMSVERIF_REPO', '/repo'))
